@@ -28,7 +28,7 @@ FEATS = dict(price_pairs=S.PRICE_PAIRS[:1], bases=["one", "two"], extras=["mc", 
              sto_eff=1, sto_costs=1, sto_inflow=1, sto_levels=1, sto_mip=[6.0],
              tr_eff=1, tr_costs=1, tr_takes=1, uc_caps=1, uc_ramp=1, uc_times=1, uc_costs=1)
 FEATS_UNEQUAL = dict(grids=["3xd_spring", "3xd_autumn", "3xMS", "7xh_autumn", "12h_partial"], price_pairs=S.PRICE_PAIRS[:1],
-                     bases=["one"], extras=["dem", "plant"], caps=1, wacc=1, window=1, sto_inflow=1, sto_costs=1, sto_eff=1, uc_costs=1, uc_caps=1)
+                     bases=["one"], extras=["dem", "plant"], caps=1, wacc=1, window=1, sto_inflow=1, sto_costs=1, sto_eff=1, uc_costs=1, uc_caps=1, uc_ramp=1)
 
 
 def gen_unit(unit):
@@ -65,7 +65,16 @@ def build_cases(tier):
                     c["family"] = "profiles"
                     prof.append(c)
     fam4 = (prof, dict(family="profiles", states=len(prof), transitions=len(prof), executions=len(prof)))
-    cases, stats = merge_cases(fam1, fam2, fam3, fam4)
+    # a unit running at a constant RATE on a grid whose steps differ in length, with a ramp limit that a constant rate respects
+    rmp = []
+    for gname in ("3xd_spring", "3xd_autumn", "3xMS"):
+        for ramp in (0.0, 0.01):
+            c = dict(kind="ramp_unequal", grid=gname, ramp=ramp)
+            c["key"] = chash(c)
+            c["family"] = "ramp_unequal"
+            rmp.append(c)
+    fam5 = (rmp, dict(family="ramp_unequal", states=len(rmp), transitions=len(rmp), executions=len(rmp)))
+    cases, stats = merge_cases(fam1, fam2, fam3, fam4, fam5)
     stats["bound"] = dict(K=K, unit_pairs=6)
     return cases, stats
 
@@ -77,6 +86,8 @@ def run_case(case):
         return run_durations(case)
     if case["kind"] == "profiles":
         return run_profiles(case)
+    if case["kind"] == "ramp_unequal":
+        return run_ramp_unequal(case)
     return run_unequal(case)
 
 
@@ -117,6 +128,37 @@ def run_durations(case):
     if len(set(vals.values())) > 1:
         V.append(viol("c12.duration_units", "plant with %s = %d hours on an hourly grid: (status, value) per main time unit %s" % (param, k, vals), tags, ["durations", "param:" + param]))
     res["nontrivial"] = vals["h"][0] == "optimal"
+    return res
+
+
+def run_ramp_unequal(case):
+    """a plant with min_cap = max_cap (one admissible rate when on), already running at that rate, with a tight ramp: staying on at the
+    constant rate changes the rate by nothing, so it respects every ramp - the volumes per step are rate x real step length"""
+    res = dict(status="ok", violations=[], counters={})
+    V = res["violations"]
+    gj = dict(S.GRIDS[case["grid"]])
+    g = Grid.from_json(gj)
+    T = g.T
+    rate = S.r(10.0, g)
+    a = dict(type="Plant", name="pl", nodes=["n1"], price="fuelc", min_cap=rate, max_cap=rate, ramp=S.r(case["ramp"] * 10.0, g),
+             time_already_running=S.d_(100.0, g), last_dispatch=rate)
+    scn = dict(grid=gj, prices=dict(p=[9.0] * T, fuelc=[4.0] * T), mode="mono",
+               assets=[dict(type="SimpleContract", name="mkt", nodes=["n1"], price="p", min_cap=S.r(-20.0, g), max_cap=S.r(20.0, g)), a])
+    run = ImplRun(scn, solver="SCIPY")
+    tags = ["ramp_unequal", "param:Plant.ramp", "grid:" + case["grid"], "steps_unequal"]
+    res["fingerprint"] = "%s|%s" % (run.status, None if run.value is None else round(run.value, 5))
+    res["outcome"] = "ramp_unequal:" + run.status
+    want = np.array([rate * g.dt[t] for t in range(T)])
+    if run.status != "optimal":
+        V.append(viol("c12.ramp_unequal", "plant held at the constant rate %.4f (min_cap = max_cap, running, last dispatch at that rate) with ramp %.4f on a grid with step lengths %s: "
+                      "EAO reports %s (%s); the volumes rate x step length %s change between steps although the rate does not"
+                      % (rate, a["ramp"], [round(x, 3) for x in g.dt], run.status, run.error, [round(x, 3) for x in want]), tags + ["verdict:" + str(run.status).replace(" ", "_")], ["ramp_unequal"]))
+        return res
+    tab, _ = run.table()
+    arr = tab[("pl", "n1")]
+    if np.abs(arr - want).max() > 1e-6 * (1 + np.abs(want).max()):
+        V.append(viol("c12.ramp_unequal", "plant held at the constant rate %.4f: volumes %s, rate x step length %s" % (rate, arr, want), tags, ["ramp_unequal", "volumes"]))
+    res["nontrivial"] = True
     return res
 
 
